@@ -497,7 +497,13 @@ func (s *sessSim) send(op simk.Op) {
 			n++
 		}
 	}
-	s.lg.Add("send %s dir=%d len=%d intact=%v -> err=%v delivered=%d", tag, dir, buf.Len(), intact, sendErr != nil, n)
+	if sendErr == nil {
+		s.lg.Add("send %s dir=%d len=%d intact=%v -> ok delivered=%d", tag, dir, buf.Len(), intact, n)
+	} else {
+		// whether a failed transfer still reached the peer's channel is decided by Client.handle's select
+		// between the incoming bundle and the error of the dying session (Go picks at random): not logged
+		s.lg.Add("send %s dir=%d len=%d intact=%v -> error", tag, dir, buf.Len(), intact)
+	}
 	s.res.Probe("send_returned")
 	if sendErr == nil {
 		s.okTo[1-dir][tag] = true
